@@ -181,7 +181,9 @@ class Ctx:
             "wall_s": round(wall, 3),
             "violations": len(self.unknown),
         }
-        d = os.path.join(VERIF, "evidence")
+        # evidence/ describes /repo's working tree only; a run pointed at another checkout (VERIF_REPO: seeded changes in scratch
+        # worktrees) leaves its record next to it
+        d = os.path.join(VERIF, "evidence" if os.path.realpath(REPO) == "/repo" or not VERIF.startswith("/verif") else "evidence_other_tree")
         os.makedirs(d, exist_ok=True)
         tmp = os.path.join(d, ".%s.json.tmp" % self.prop)
         with open(tmp, "w") as f:
